@@ -487,14 +487,14 @@ class Exec:
             x = z3.ToReal(v.num[0]) / v.den
             r = x
             for _ in range(v.k):
-                r = self.rounded(r)
+                r = self.rounded(r, v.p)
             return r
         raise EngineError('float value %r has no linear form' % (v,))
 
-    def rounded(self, exact):
-        """fresh real within one rounding (relative 2^-53) of `exact`"""
+    def rounded(self, exact, p=53):
+        """fresh real within one rounding (relative 2^-p; binary64 by default) of `exact`"""
         r = self.fresh('fl', z3.RealSort())
-        u = z3.RealVal(str(self.U53))
+        u = z3.RealVal(str(Fraction(1, 2 ** p)))
         self.side.append(z3.If(exact >= 0,
                                z3.And(r >= exact * (1 - u), r <= exact * (1 + u)),
                                z3.And(r <= exact * (1 - u), r >= exact * (1 + u))))
@@ -520,13 +520,13 @@ class Exec:
         if op in ('Mul', 'Div') and isinstance(a, FMono) and isinstance(b, FConst):
             q = b.q if op == 'Mul' else 1 / b.q
             if q > 0 and q.numerator == 1:
-                return FMono(a.num, a.den * q.denominator, a.k + (0 if self._pow2(q) else 1))
+                return FMono(a.num, a.den * q.denominator, a.k + (0 if self._pow2(q) else 1), a.p)
             if q > 0 and q.denominator == 1 and self._pow2(q):
-                return FMono(a.num + [z3.IntVal(q.numerator)], a.den, a.k)
+                return FMono(a.num + [z3.IntVal(q.numerator)], a.den, a.k, a.p)
         if op == 'Mul' and isinstance(b, FMono) and isinstance(a, FConst):
             return self.fbin(op, b, a)
         if op == 'Mul' and isinstance(a, FMono) and isinstance(b, FMono):
-            return FMono(a.num + b.num, a.den * b.den, a.k + b.k + 1)
+            return FMono(a.num + b.num, a.den * b.den, a.k + b.k + 1, min(a.p, b.p))
         if op in ('Add', 'Sub', 'Mul', 'Div'):
             if op in ('Mul', 'Div') and not (isinstance(a, FConst) or isinstance(b, FConst)):
                 raise EngineError('float %s of two symbolic non-monomial values' % op)
@@ -584,7 +584,7 @@ class Exec:
             P = v.num[0]
             for t in v.num[1:]:
                 P = self.mul_term(P, t)
-            E = 2 ** 52; kk = v.k + 1; den = v.den
+            E = 2 ** (v.p - 1); kk = v.k + 1; den = v.den
             # |computed - P/den| <= (kk/2^52) * |P/den| ; g = trunc(computed)
             self.side.append(z3.Implies(P >= 0, z3.And(g >= 0, g * den * E <= P * (E + kk), g * den * E > P * (E - kk) - den * E)))
             self.side.append(z3.Implies(P < 0, z3.And(g <= 0, g * den * E >= P * (E + kk), g * den * E < P * (E - kk) + den * E)))
@@ -873,12 +873,20 @@ class Exec:
                 v = z3.If(v, z3.IntVal(1), z3.IntVal(0))
             if z3.is_int_value(v):
                 return FConst(Fraction(float(v.as_long())))
-            return FMono([v], 1, 1)
+            return FMono([v], 1, 1, 24 if ty == 'f32' else 53)
         if kind == 'FloatToInt':
             return self.float_to_int(v, ty)
         if kind == 'FloatToFloat':
             if ty == 'f64':
                 return v
+            if ty == 'f32':
+                # narrowing: one more rounding, at binary32 precision (range errors are outside: the stated domains are far below f32::MAX)
+                if isinstance(v, FMono):
+                    return FMono(v.num, v.den, v.k + 1, 24)
+                if isinstance(v, FConst):
+                    import struct
+                    return FConst(Fraction(struct.unpack('f', struct.pack('f', float(v.q)))[0]))
+                return FLin(self.rounded(self.to_lin(v), 24))
             raise EngineError('narrowing float cast')
         if kind in ('PtrToPtr', 'FnPtrToPtr', 'MutToConstPointer', 'ArrayToPointer'):
             return v
